@@ -10,6 +10,7 @@ Latitude (things the statement does not fix, so the oracle accepts the code's do
  - mask keys outside 0..n-1 are ignored;
  - only strictly ascending or strictly descending inputs are generated (the statement's quantifier).
 """
+import copy
 import itertools
 import json
 
@@ -282,6 +283,7 @@ def run_history(hist):
     stats = {}
     ds = None
     m = None
+    alive = []  # (earlier DataSet object, its model at the time it was left behind, how): nothing done later may change it
 
     def bad(step, key, msg):
         viol.append({"key": key, "msg": f"step {step} ({hist[step]['op']}): {msg}",
@@ -375,6 +377,7 @@ def run_history(hist):
                 ds.subtract_impedances(s if len(s) > 1 else np.array(s[0]))
                 m.subtract(list(s))
             elif k in ("roundtrip", "roundtrip_twice"):
+                m_before = copy.deepcopy(m)
                 d = ds.to_dict()
                 if op["json"]:
                     d = json.loads(json.dumps(d))
@@ -414,9 +417,11 @@ def run_history(hist):
                     m.path = ""
                 if "label" in op["drop"]:
                     m.label = os.path.splitext(os.path.basename(m.path))[0]
+                alive.append((ds, m_before, k))
                 ds = ds2
             elif k == "duplicate":
                 before = ds.to_dict()
+                m_old = copy.deepcopy(m)
                 ds2 = DataSet.duplicate(ds, label=op["label"])
                 if ds.to_dict() != before:
                     bad(step, "C05/duplicate-mutates", "duplicate changed the original")
@@ -428,13 +433,25 @@ def run_history(hist):
                 # independence: mutate the old one, the copy must not change
                 ds.set_mask({i: True for i in range(m.n())})
                 ds.subtract_impedances(np.array(1.0 + 1.0j))
+                m_old.set_mask({i: True for i in range(m.n())})
+                m_old.subtract([1.0 + 1.0j])
+                alive.append((ds, m_old, k))
                 ds = ds2
             elif k == "average":
                 other = DataSet.duplicate(ds)
                 s = np.array([complex(a, b) for a, b in op["s"]])
                 other.subtract_impedances(s)
                 other.set_mask({0: True})
+                m_a, m_b = copy.deepcopy(m), copy.deepcopy(m)
+                m_b.subtract(list(s))
+                m_b.set_mask({0: True})
+                m_b.uuid = other.uuid
+                alive.append((ds, m_a, k))
+                alive.append((other, m_b, k + "-other"))
                 avg = DataSet.average([ds, other], label="Avg")
+                again = DataSet.average([ds, other], label="Avg")
+                if not np.array_equal(again.get_impedances(masked=None), avg.get_impedances(masked=None)):
+                    bad(step, "C05/average", "averaging the same two data sets a second time gives other impedances")
                 Zm = np.array([t[1] for t in m.t])
                 exp = np.mean(np.array([Zm, Zm - s]), axis=0)
                 got = avg.get_impedances(masked=None)
@@ -456,6 +473,16 @@ def run_history(hist):
             key = "C05/caller-mask-altered" if r["monitor"].endswith("mask_post") else "C05/invariant"
             bad(step, key, r["msg"])
         _cmp_views(ds, m, step, viol, hist)
+        if viol:
+            break
+        for ods, om, how in alive[-4:]:
+            stats["earlier_object_rechecked"] = stats.get("earlier_object_rechecked", 0) + 1
+            _cmp_views(ods, om, step, viol, hist)
+            if viol:
+                for v in viol:
+                    v["key"] = f"C05/earlier-object-changed:{how}->{k}"
+                    v["msg"] = f"the data set left behind by '{how}' changed: " + v["msg"]
+                break
         if viol:
             break
     return viol, stats
